@@ -76,9 +76,9 @@ type Output struct {
 	FlagWrites  []string          `json:"flag_writes"` // every write of isQuery/nestedView found anywhere in the package
 	// the trusted base, made explicit for the dynamic part of C20 (checks/c20.py, harness/state/verif_pure_test.go):
 	// every call the model treats as pure because of pureMethods / a "pure" entry of pkgFuncs, with its call site
-	PureCalls   []*PureCall       `json:"pure_calls"`
-	PureMethods []string          `json:"pure_methods"`   // the table pureMethods
-	PurePkgFunc []string          `json:"pure_pkg_funcs"` // the "pure" entries of pkgFuncs
+	PureCalls   []*PureCall `json:"pure_calls"`
+	PureMethods []string    `json:"pure_methods"`   // the table pureMethods
+	PurePkgFunc []string    `json:"pure_pkg_funcs"` // the "pure" entries of pkgFuncs
 }
 
 // PureCall is one call site the extractor drops from the model as read-only.
